@@ -150,8 +150,10 @@ Definition take_frac (s : str) : Z * str :=
 
 Definition take_zone (s : str) : option (Z * str) :=
   match s with
-  | x5a :: r => Some (0, r)
+  | [] => None
   | sg :: r =>
+      if Byte.eqb sg x5a then Some (0, r)
+      else
       match take2 r with
       | Some (hh, r1) =>
           match expect x3a r1 with
@@ -168,7 +170,6 @@ Definition take_zone (s : str) : option (Z * str) :=
           end
       | None => None
       end
-  | [] => None
   end.
 
 Definition bind {A B : Type} (o : option A) (k : A -> option B) : option B :=
